@@ -13,6 +13,7 @@ var c15Programs = []string{
 	// strings and comments that start a statement, directly or after another statement
 	`"a string statement"`, "`a raw one`", `a = 1; "second statement"`, `a = 1 "glued string"`, "println(1)\n`raw after a line`", `/*/ tricky */ a`, `a = 1 /*/ c */`, `/* only */`,
 	"s = `Hello, world`", "println(`it's (a) b`)", "f(`a) b`, 1)", "x = [`]`, `}`]", "{`k)`: `v(`}", `t = "it's (a) b" + "c]"`,
+	`return`, "x = 1\nreturn", "if x { return }\nprintln(x)\nreturn", `break`, "x = 1\ncontinue",
 	`m[b = 1 : 3]`, `x[a || 1 : 2] + y[c := 0 : 1]`, `z[1 : ]`,
 	`if a {"in a block"}`, `f = () => "lambda value"`, `["in", "a list"]`, `{"k": "v"}`, `return "s"`,
 }
@@ -107,6 +108,8 @@ var c15Scripts = [][]string{
 	{`func r(n) { if n <= 0 { return 0 }; n + r(n - 1) }`, `println(r(4))`, `w = r(3)`},
 	{`s = "x"`, `s = s * 3`, `println(s)`, `println(len(s))`},
 	{`inc = macro(u) { quote(unquote(u) + 1) }`, `dbl = macro(u) { quote(unquote(u) * 2) }`, `neg = macro(u) { quote(-unquote(u)) }`, `println(inc(a), dbl(b), neg(a))`},
+	{`func g9(x) { x + 1 }`, `func f9(x) { g9(x) * 2 }`, `println(f9(a))`, `func g9(x) { x + 10 }`, `println(f9(a))`},
+	{`h9 = x => x + 1`, `k9 = x => h9(x) * 2`, `println(k9(b))`, `h9 = x => x - 1`, `println(k9(b))`, `println(k9(a))`},
 	{`m1 = macro() { quote(1) }`, `m2 = macro() { quote(2) }`, `z = m1() + m2()`, `println(z)`},
 	{`if a < b { println("lt") } else { println("ge") }`, `q = a < b`, `println(q)`},
 }
@@ -132,7 +135,8 @@ func init() {
 				}
 			}
 			for _, p := range c15Programs {
-				jobs = append(jobs, Job{Prop: "C15", Pkg: "parser", Func: "VerifModes", Args: []string{p}})
+				jobs = append(jobs, Job{Prop: "C15", Pkg: "parser", Func: "VerifModes", Args: []string{p, "complete"}})
+				jobs = append(jobs, Job{Prop: "C15", Pkg: "parser", Func: "VerifModes", Args: []string{p + "\n", "complete"}})
 				// (2) every cut inside an open construct
 				for _, cut := range c15Cuts(p) {
 					jobs = append(jobs, Job{Prop: "C15", Pkg: "parser", Func: "VerifContinuation", Args: []string{cut}})
